@@ -21,7 +21,7 @@ from ..core import AnchorMissing, Check, Undecided, calls_in, dotted, own_nodes,
 from ..hydro import HY, TM, SideTyper, drop_ite, fn, hydro_extractor, junction_terms, n, th
 from ..nf import Ctx, eqx, has
 from ..terms import Extractor, is_zero
-from .c06 import _local_func, _side_conflicts
+from .c06 import _local_func, _side_conflicts, written_out
 
 LEVEL = "other"
 
@@ -237,7 +237,7 @@ PRODUCERS = ["findMatching", "matchDeton", "matchDeflagOrHyb", "findHydroBoundar
 def r02_4(chk: Check):
     S = chk.src
     for name, seeds in CONSUMERS:
-        fi = S.func(name)
+        fi = written_out(S, S.func(name))        # (loops over literal cases written out, so that the sides are typed case by case)
         chk.touch(fi.name)
         st = SideTyper(fi.node, seeds)
         # (+ temperatures recognised as "element 2 / 3 of a matching", through any local helper or unpacking)
@@ -278,7 +278,8 @@ def r02_4(chk: Check):
                key=f"producer|{pname}")
     # the 2x2 mapping helpers keep the (T+, T-) order
     for hname in ("_mappingT", "_inverseMappingT"):
-        fi = S.func(f"{HY}.{hname}")
+        # (read in its written-out form: a loop over the literal pair (T+, T-) that fills one result slot per element is written out)
+        fi = written_out(S, S.func(f"{HY}.{hname}"))
         chk.touch(fi.name)
         unpack = [s_ for s_ in own_nodes(fi.node) if isinstance(s_, ast.Assign) and isinstance(s_.targets[0], ast.Tuple)]
         rets = [r for r in own_nodes(fi.node) if isinstance(r, ast.Return)]
